@@ -923,15 +923,29 @@ func init() {
 				j.Reach = []string{"frame2"}
 				jobs = append(jobs, j)
 			}
+			// buffers with embedded newlines, and with a double-width character
+			small := [][2]int{{2, 1}}
+			if tier == "thorough" {
+				small = [][2]int{{2, 1}, {1, 2}, {2, 2}, {3, 2}}
+			}
+			for _, alpha := range []string{"nl", "wide"} {
+				for _, l := range small {
+					j := mkJob(".ZZ_C04_Screen", shellSetup, "n1", itoa(l[0]), "n2", itoa(l[1]), "alpha", alpha)
+					j.Reach = []string{"frame2"}
+					jobs = append(jobs, j)
+				}
+			}
 			return jobs
 		},
 		Assumptions: []string{
 			"terminal = VT100 model of the harness package (cursor movement, CR/LF, EL/ED, deferred autowrap) fed by the library's output; width symbolic in [3,10]; prompt '> '; buffers of lower-case letters (each one cell wide), cursor anywhere; two successive frames with different buffers (ghosting)",
 			"the reference layout prints prompt + buffer into a second VT model of the same width; the cursor cell of position p is where the next character would be placed (column 0 of the next row after an exactly filled row)",
-			"cursor-position queries are answered ESC[1;1R; the display engine runs unstubbed",
+			"cursor-position queries are answered with the model's true cursor; the display engine runs unstubbed",
+			"alphabet nl: letters and newline; a further line starts on a row of its own under the first (indent = prompt width, blank), the last line's indent holds the library's default secondary prompt; alphabet wide: letters and U+4E16 (two cells; a wide character that does not fit in the last cell of a row wraps early, as terminals do); uniseg.StringWidth is the engine's width model for such runes",
+			"assertion labels carry the shape of the buffer(s) (number of newlines, some line wraps, a non-last line ends within 5 cells of the margin, wide character wraps early, row exactly filled, previous frame taller/shorter) so that each listed finding names the shapes it is about and every other shape keeps alarming",
 		},
-		Stubs:  []string{"tty ioctls (symbolic width)", "stdin = zzverif.Script", "stdout -> zzverif.VT"},
-		Bounds: map[string]string{"quick": "buffers up to 8 letters, width 3..10, two frames, single logical line, one-cell characters", "thorough": "buffers up to 18 letters"},
+		Stubs:  []string{"tty ioctls (symbolic width)", "stdin = zzverif.Script", "stdout -> zzverif.VT", "uniseg.StringWidth = per-rune width model"},
+		Bounds: map[string]string{"quick": "width 3..10, prompt '> ', two frames; letters: buffers up to 8; with newlines / with U+4E16: buffers of 2 then 1 characters", "thorough": "letters: buffers up to 18; with newlines / with U+4E16: buffers up to 3 then 2 characters"},
 		Rule:   "one state per completed symbolic path (a path = a class of widths and cursor positions)",
 		IgnoreKinds: []string{"panic", "hang", "deadlock", "spin"},
 	}
